@@ -27,7 +27,7 @@ pub fn cfg(include_mut_unmock: bool) -> Cfg {
     cfg.p_unordered = 95;
     cfg.p_ordered = 45;
     cfg.resps = vec![Resp::Answers, Resp::AnswersArc, Resp::Returns, Resp::ReturnsDefault];
-    cfg.matchers = vec![MatcherKind::FuncDebug, MatcherKind::FuncDebug, MatcherKind::Func, MatcherKind::Macro(0), MatcherKind::FuncDebug, MatcherKind::FuncUserPanic];
+    cfg.matchers = vec![MatcherKind::FuncDebug, MatcherKind::FuncDebug, MatcherKind::Func, MatcherKind::Macro(0), MatcherKind::FuncDebug, MatcherKind::FuncUserPanic, MatcherKind::FuncDebug, MatcherKind::NoFunc];
     cfg.max_clauses = 5;
     cfg.max_stub_pats = 3;
     cfg.max_chain = 3;
